@@ -9,6 +9,7 @@ from dst.rng import Rng, derive
 from dst import harness, kernel
 from dst.kernel import V, tval
 from dst import wmodel
+from dst.rec import REC
 from dst.wmodel import resolve, glob_child_entries, Var, Glob, Model, flat, values_equal
 
 PROFILE = 'wiring'
@@ -43,7 +44,9 @@ def rel(Q, target, r=None):
 def _leaf_attrs(r, swarm):
     kinds = ['acc_int'] * 5 + ['set'] * 2 + ['acc_float', 'acc_list']
     if swarm['updaters']:
-        kinds += ['null', 'nonneg', 'nonneg', 'merge', 'merge', 'dict_value', 'affine', 'acc_nd']
+        kinds += ['null', 'nonneg', 'nonneg', 'merge', 'merge', 'dict_value', 'affine', 'acc_nd', 'nonneg_nd']
+    if swarm.get('units'):
+        kinds += ['qty'] * 4
     kind = r.pick(kinds)
     a = {'kind': kind, 'emit': r.chance(70)}
     if kind == 'acc_int':
@@ -54,6 +57,14 @@ def _leaf_attrs(r, swarm):
         a.update(updater='accumulate', default=[r.rint(0, 9)])
     elif kind == 'acc_nd':
         a.update(updater='accumulate', default={'__nd__': [r.rint(0, 9), r.rint(0, 9)]})
+    elif kind == 'nonneg_nd':
+        a.update(updater='nonnegative_accumulate', default={'__nd__': [r.rint(0, 9), r.rint(0, 9)]})
+    elif kind == 'qty':
+        # declared unit differs from the unit of the default in half of the cases
+        du = r.pick(['mm', 'mm', 'um', 'g', 'mg'])
+        same_dim = {'mm': ['mm', 'um', 'm'], 'um': ['um', 'mm'], 'g': ['g', 'mg'], 'mg': ['mg', 'g']}[du]
+        a.update(updater=r.pick([None, 'accumulate', 'set']), units=du,
+                 default={'__q__': [r.rint(1, 64) * 0.5, r.pick(same_dim)]}, dims=same_dim)
     elif kind == 'set':
         a.update(updater='set', default=r.rint(0, 50))
     elif kind == 'null':
@@ -73,6 +84,8 @@ def _leaf_schema(a):
     s = {'_default': copy.deepcopy(a['default']), '_emit': a['emit']}
     if a['updater'] is not None:
         s['_updater'] = a['updater']
+    if a.get('units'):
+        s['_units'] = a['units']
     return s
 
 
@@ -99,6 +112,10 @@ def _vals_for(r, a, pname, swarm):
             v = [r.rint(0, 9) for _ in range(r.rint(0, 2))]
         elif kind == 'acc_nd':
             v = {'__nd__': [r.rint(-3, 9), r.rint(-3, 9)]}
+        elif kind == 'nonneg_nd':
+            v = {'__nd__': [r.rint(-6, 9), r.rint(-6, 9)]}
+        elif kind == 'qty':
+            v = {'__q__': [r.rint(-8, 64) * 0.5, r.pick(a['dims'])]}
         elif kind in ('set', 'null'):
             v = r.pick([0, 0, r.rint(1, 99), r.rint(1, 99)])
         elif kind == 'nonneg':
@@ -122,13 +139,17 @@ def gen_case(seed):
         'pathdict': r.chance(60), 'multi': r.chance(25), 'output': r.chance(25),
         'nested': r.chance(40), 'leafport': r.chance(50), 'partial_init': r.chance(60),
         'composite_init': r.chance(30), 'quiet': r.chance(20), 'share': r.chance(60),
-        'globrename': r.chance(40),
+        'globrename': r.chance(40), 'units': r.chance(30), 'ownpath': r.chance(35),
+        'globvia': r.chance(30), 'conflict': r.chance(6), 'rebuild': r.chance(10),
     }
     # leaf pool
     pool = {}     # abs path -> attrs
     for st in PLAIN_STORES:
         for v in r.sample(['v0', 'v1', 'v2', 'v3'], r.rint(2, 3)):
             pool[st + (v,)] = _leaf_attrs(r, swarm)
+    if swarm['ownpath']:
+        for lp in (('top0',), ('top1',), ('c0', 'mid0'), ('c0', 'mid1'), ('c0', 'c1', 'low0')):
+            pool[lp] = _leaf_attrs(r, swarm)
     if swarm['nested']:
         for w in ('w0', 'w1'):
             pool[('B', 'sub', w)] = _leaf_attrs(r, swarm)
@@ -159,6 +180,10 @@ def gen_case(seed):
                 kinds += ['pathdict'] * 2 + ['split']
             if swarm['glob']:
                 kinds += ['glob'] * 2 + ['globdict']
+                if swarm['globvia']:
+                    kinds += ['globvia'] * 2
+            if swarm['ownpath'] and any(len(p_) == len(Q) + 1 and list(p_[:-1]) == Q for p_ in pool):
+                kinds += ['ownpath'] * 3
             if swarm['output']:
                 kinds += ['output']
             kind = r.pick(kinds)
@@ -195,6 +220,26 @@ def gen_case(seed):
                             decl.append(((port, 'dup'), tgt))
                     topo[port] = t
                 schema[port] = sch
+            elif kind == 'ownpath':
+                # the port is the process's own compartment: `_path: ()` with
+                # variables that the dictionary does not list (default routes),
+                # or the empty tuple itself
+                mine = [p_ for p_ in pool if len(p_) == len(Q) + 1 and list(p_[:-1]) == Q]
+                pick = r.sample(mine, r.rint(1, len(mine)))
+                sch = {p_[-1]: _leaf_schema(pool[p_]) for p_ in pick}
+                decl = [((port, p_[-1]), p_) for p_ in pick]
+                if r.chance(60):
+                    t = {'_path': []}
+                    others = [p_ for p_ in pool if p_ not in mine and len(p_) >= 2]
+                    if others and r.chance(50):
+                        tgt = r.pick(others)
+                        sch['far'] = _leaf_schema(pool[tgt])
+                        t['far'] = ['..'] * len(Q) + list(tgt)
+                        decl.append(((port, 'far'), tgt))
+                    topo[port] = t
+                else:
+                    topo[port] = []
+                schema[port] = sch
             elif kind == 'nested':
                 st = r.pick([('B',), ('c0', 'S')])
                 names = [p[-1] for p in pool if p[:-1] == st]
@@ -225,12 +270,19 @@ def gen_case(seed):
                     decl.append(((port, nm), tgt))
                 schema[port] = sch
                 topo[port] = t
-            else:   # glob / globdict
+            else:   # glob / globdict / globvia
                 g = r.pick(GLOB_STORES)
                 sub = gsub[g]
                 pick = r.sample(list(sub), r.rint(1, len(sub)))
                 decl = []
-                if kind == 'glob':
+                if kind == 'globvia':
+                    # {'_path': some store, '*': path from there to the glob store}
+                    via = r.pick(PLAIN_STORES)
+                    schema[port] = {'*': {v: _leaf_schema(sub[v]) for v in pick}}
+                    topo[port] = {'_path': rel(Q, via, r), '*': ['..'] * len(via) + list(g)}
+                    for v in pick:
+                        decl.append(((port, '@', v), g + ('@', v)))
+                elif kind == 'glob':
                     schema[port] = {'*': {v: _leaf_schema(sub[v]) for v in pick}}
                     topo[port] = rel(Q, g, r)
                     for v in pick:
@@ -282,8 +334,50 @@ def gen_case(seed):
     for i in range(r.rint(1, 3)):
         u = r.rint(1, 30)
         ops.append(r.pick([['run_for', u, False], ['run_for', u, True], ['update', u]]))
+    # who declares which plain leaf (by the independent resolver)
+    declared_by = {}
+    for spec in procs:
+        for e in resolve(tuple(spec['path'][:-1]), spec['schema'], _tuplify(spec['topology'])):
+            if isinstance(e, Var):
+                declared_by.setdefault(e.abs, []).append((spec['name'], list(e.spath)))
+    conflict = None
+    if swarm['conflict'] and len(procs) >= 2:
+        # two processes declare one variable incompatibly: construction must raise
+        first = procs[0]
+        cands = [(a, d) for a, d in declared_by.items()
+                 if d[0][0] == first['name'] and pool.get(a, {}).get('kind') in ('acc_int', 'set')]
+        if cands:
+            abs_, d = r.pick(cands)
+            kind = r.pick(['value', 'units', 'serializer'])
+            second = procs[1]
+            port = 'cf'
+            sch2 = _leaf_schema(pool[abs_])
+            node = first['schema']
+            for seg in d[0][1]:
+                node = node[seg]
+            if kind == 'value':
+                node['_value'] = 5
+                sch2['_value'] = 6
+            elif kind == 'units':
+                node['_units'] = 'mm'
+                sch2['_units'] = 'g'
+            else:
+                node['_serializer'] = 'verif_ser_a'
+                sch2['_serializer'] = 'verif_ser_b'
+            second['schema'][port] = sch2
+            second['topology'][port] = rel(second['path'][:-1], abs_)
+            conflict = {'abs': list(abs_), 'kind': kind}
+    rebuild = None
+    if swarm['rebuild'] and not conflict:
+        cands = [(a, d) for a, d in declared_by.items()
+                 if len(d) == 1 and pool.get(a, {}).get('kind') in ('acc_int', 'set')
+                 and get_in(init_state, a) is None]
+        if cands:
+            abs_, d = r.pick(cands)
+            rebuild = {'proc': d[0][0], 'spath': d[0][1], 'abs': list(abs_), 'default': r.rint(500, 600)}
     return {
         'profile': PROFILE, 'seed': seed,
+        'conflict': conflict, 'rebuild': rebuild,
         'opts': {'precision': None, 'unit': unit, 'emit_step': 1, 't0': 0,
                  'composite_init': swarm['composite_init']},
         'pool': [[list(p_), a] for p_, a in pool.items()],
@@ -313,9 +407,20 @@ def topo_of(spec):
 
 
 def register_updaters():
-    from vivarium.core.registry import updater_registry
+    from vivarium.core.registry import updater_registry, serializer_registry, Serializer
     if updater_registry.access('verif_affine') is None:
         updater_registry.register('verif_affine', wmodel.up_affine)
+    if serializer_registry.access('verif_ser_a') is None:
+        class SerA(Serializer):
+            python_type = int
+
+            def serialize(self, data):
+                return data
+
+        class SerB(SerA):
+            pass
+        serializer_registry.register('verif_ser_a', SerA())
+        serializer_registry.register('verif_ser_b', SerB())
 
 
 def build(case, perm=None):
@@ -359,9 +464,28 @@ def execute(case, perm=None):
             try:
                 run.extra['composite_default'] = comp.default_state()
                 run.extra['composite_initial'] = comp.initial_state({'initial_state': copy.deepcopy(init)})
+                # history on one object: asking again without the explicit state
+                run.extra['composite_initial_again'] = comp.initial_state()
                 init = copy.deepcopy(run.extra['composite_initial'])
             except Exception as e:   # recorded, judged by the oracle
                 run.extra['composite_exc'] = harness.norm_exc(e)
+        rb = case.get('rebuild')
+        if rb:
+            # build once, override a default on the same process object, build again
+            REC.active = False
+            try:
+                from vivarium.core.engine import Engine
+                Engine(processes=processes, topology=topology, initial_state=copy.deepcopy(init),
+                       emitter={'type': 'null'}, display_info=False, progress_bar=False)
+            except Exception as e:
+                run.extra['rebuild_exc'] = harness.norm_exc(e)
+            REC.active = True
+            node = processes
+            for seg in [s_ for s_ in case['procs'] if s_['name'] == rb['proc']][0]['path']:
+                node = node[seg]
+            ov = {}
+            harness.assoc(ov, list(rb['spath']), {'_default': rb['default']})
+            node.merge_overrides(ov)
         eng = harness.make_engine(
             run, budget_for(case, 1),
             processes=processes, topology=topology, initial_state=init)
@@ -401,7 +525,8 @@ def build_model(case):
                 declared.add(e.abs)
                 m.attr[e.abs] = {'default': e.schema.get('_default'),
                                  'updater': e.schema.get('_updater'),
-                                 'emit': e.schema.get('_emit', False)}
+                                 'emit': e.schema.get('_emit', False),
+                                 'units': e.schema.get('_units')}
             else:
                 globs_declared.setdefault(e.base, []).append(e)
         m.markers[tuple(spec['path'])] = ('<P>', spec['name'])
@@ -420,7 +545,8 @@ def build_model(case):
                 for ce in glob_child_entries(g, kid):
                     m.attr[ce.abs] = {'default': ce.schema.get('_default'),
                                       'updater': ce.schema.get('_updater'),
-                                      'emit': ce.schema.get('_emit', False)}
+                                      'emit': ce.schema.get('_emit', False),
+                                      'units': ce.schema.get('_units')}
                     m.val[ce.abs] = _dec(ce.schema.get('_default'))
     return m, decl, globs_declared
 
@@ -454,7 +580,24 @@ def check(case, run, stats=None):
     out = []
     if run.budget_hit:
         return [V('C03', 'C03.no-termination', 'wiring', 'budget exceeded')]
+    if case.get('conflict'):
+        # incompatible declarations must be rejected at construction
+        cf = case['conflict']
+        if run.exc is not None and run.exc[0] == -1 and 'Incompatible schema assignment' in run.exc[2]:
+            probe('conflict-rejected')
+            return []
+        return [V('C15', 'C15.conflict-accepted', cf['kind'],
+                  'two processes declare %s with conflicting %s; construction %s' % (
+                      '/'.join(cf['abs']), cf['kind'],
+                      'succeeded' if run.exc is None else 'raised something else: ' + run.exc[1]))]
     m, decl, globs = build_model(case)
+    rb = case.get('rebuild')
+    if rb:
+        if 'rebuild_exc' in run.extra:
+            return [V('C15', 'engine-exception', run.extra['rebuild_exc'], 'first construction raised')]
+        m.attr[tuple(rb['abs'])]['default'] = rb['default']
+        m.val[tuple(rb['abs'])] = rb['default']
+        probe('rebuilt-with-override')
     # --- C15: Composite.initial_state()/default_state() -------------------------
     init = _dec(case.get('init') or {})
     expected_init_given = copy.deepcopy(init)
@@ -492,6 +635,21 @@ def check(case, run, stats=None):
         if not _flat_eq(flat(_strip_probe(got_initial), ls), flat(exp_initial, ls)):
             return [V('C15', 'C15.composite-state', 'initial',
                       'Composite.initial_state() = %r, expected %r' % (got_initial, exp_initial))]
+        # ... and the explicit state of the first call must not have stuck to the composite
+        exp_again = {}
+        for spec in case['procs']:
+            Q, schema, topo = decl[spec['name']]
+            pinit = spec.get('init') or {}
+            for e in resolve(Q, schema, topo):
+                if isinstance(e, Var):
+                    given = get_in(pinit, e.spath)
+                    if given is not None:
+                        harness.assoc(exp_again, list(e.abs), _dec(given))
+        got_again = run.extra.get('composite_initial_again')
+        if not _flat_eq(flat(_strip_probe(got_again), ls), flat(exp_again, ls)):
+            return [V('C15', 'C15.composite-state', 'initial-second-call',
+                      'Composite.initial_state() after an earlier call with an explicit initial state = %r, '
+                      'expected %r' % (got_again, exp_again))]
         probe('composite-state-checked')
         expected_init_given = exp_initial
     apply_initial(m, expected_init_given)
@@ -513,10 +671,15 @@ def check(case, run, stats=None):
         exp = dict(m.val)
         exp.update(m.markers)
         bad = []
+        parents = set(q[:-1] for q in exp)
         for p_ in set(got) | set(exp):
             if p_ not in got or p_ not in exp:
-                if p_ in got and _empty(got[p_]):
-                    continue      # an empty store node (e.g. a glob store without children)
+                if p_ in got and (_empty(got[p_]) or got[p_] is None):
+                    continue      # an empty store node (a glob store without children, a node
+                                  # established on the way of a `_path`)
+                if p_ in got and p_[:-1] not in parents:
+                    continue      # an undeclared node outside every declared store (it can only
+                                  # hold what the initial state put there)
                 bad.append(p_)
             elif not values_equal(got[p_], exp[p_]):
                 bad.append(p_)
@@ -617,7 +780,8 @@ def check(case, run, stats=None):
                 for uv in ups:
                     a = m.attr[abs_]
                     try:
-                        m.val[abs_] = wmodel.apply_leaf(m.val[abs_], _dec_keep(uv), a['updater'], _dec(a['default']))
+                        m.val[abs_] = wmodel.apply_leaf(m.val[abs_], _dec(uv), a['updater'], _dec(a['default']),
+                                                        a.get('units'))
                     except Exception as e:
                         raise harness.HarnessError('model updater failed: %r' % (e,))
                     if isinstance(uv, dict) and '_updater' in uv:
@@ -640,10 +804,12 @@ def check(case, run, stats=None):
             got = flat(row, leafset)
             got = {p_: v for p_, v in got.items() if not _empty(v)}
             exp = {p_: m.val[p_] for p_ in m.val if (m.attr.get(p_) or {}).get('emit')}
-            if set(got) != set(exp) or any(not _emit_equal(got[p_], exp[p_]) for p_ in exp):
+            def eq_(p_):
+                return _emit_equal(got[p_], exp[p_], (m.attr.get(p_) or {}).get('units'))
+            if set(got) != set(exp) or any(not eq_(p_) for p_ in exp):
                 extra = sorted(set(got) - set(exp))
                 missing = sorted(set(exp) - set(got))
-                diff = [p_ for p_ in exp if p_ in got and not _emit_equal(got[p_], exp[p_])]
+                diff = [p_ for p_ in exp if p_ in got and not eq_(p_)]
                 return [V('C12', 'C12.row-content', 'extra' if extra else ('missing' if missing else 'value'),
                           'row at %r: extra %r missing %r different %r' % (
                               ev['row'].get('time'), extra[:3], missing[:3],
@@ -700,7 +866,18 @@ def _flat_eq(a, b):
     return set(a) == set(b) and all(values_equal(a[k], b[k]) for k in a)
 
 
-def _emit_equal(got, exp):
+def _emit_equal(got, exp, units=None):
+    if wmodel._is_qty(exp):
+        # emitted through the quantity serializer, in the declared units
+        want = exp.to(units) if units else exp
+        if not isinstance(got, str) or not got.startswith('!units['):
+            return False
+        try:
+            from vivarium.library.units import units as U
+            q = U(got[len('!units['):-1])
+        except Exception:
+            return False
+        return values_equal(q, want)
     try:
         import numpy as np
         if isinstance(exp, np.ndarray):
